@@ -56,21 +56,14 @@ Definition check_target (d : cdir) (f : tfmt) : bool :=
   | None => false
   end.
 
-(* which converter BzrDirMetaFormat1.get_converter returns: true = ConvertMetaToColo.
-   BzrDirMetaFormat1Colo is a SUBCLASS of BzrDirMetaFormat1, so the first test
-   `isinstance(self, BzrDirMetaFormat1) and isinstance(format, BzrDirMetaFormat1Colo)` holds for
-   every source whenever the target is a colo format. *)
+(* which converter BzrDirMetaFormat1.get_converter returns: true = ConvertMetaToColo -- exactly when
+   source and target differ in the metadir flavour (colocated branches or not) *)
 Definition get_converter (d : cdir) (f : tfmt) : bool :=
-  if tg_colo f then true
-  else if c_colo d then true      (* self is Colo, format is (an instance of) BzrDirMetaFormat1 *)
-  else false.
+  negb (Bool.eqb (c_colo d) (tg_colo f)).
 
-(* Converter5to6: a new format-6 branch is filled from the old one's fields; tags start empty.
-   new_branch.set_push_location(branch.get_push_location()) stores the string "" when there is no
-   push location (location 0 stands for the empty string): get_push_location() then answers ""
-   instead of None.  set_parent(None) also stores "", which get_parent() reads back as None. *)
-Definition conv5to6 (p : bpay) : bpay :=
-  mkBP (bp_tip p) [] (bp_parent p) (bp_bound p) (Some (match bp_push p with Some l => l | None => 0 end)).
+(* Converter5to6: a new format-6 branch is filled from the old one's fields; tags start empty
+   (format 5 has none); a missing push location stays missing *)
+Definition conv5to6 (p : bpay) : bpay := mkBP (bp_tip p) [] (bp_parent p) (bp_bound p) (bp_push p).
 
 (* one turn of the `while old != new` loop; None = raise BadConversionTarget *)
 Definition branch_step (old new : nat) (p : bpay) : option (nat * bpay) :=
@@ -96,26 +89,37 @@ Definition tree_steps (t new : nat) : nat :=
   let t3 := if dirstate && negb (t =? 6) && (new =? 6) then 6 else t2 in
   t3.
 
-(* ConvertMetaToMeta.convert: (result, raised BadConversionTarget?) -- the repository is converted
-   before the branch, so a refusal of the branch step leaves the repository converted *)
+(* the tree part of ConvertMetaToMeta.convert: None = raise BadConversionTarget (no converter applied
+   and the tree is not in the target format, e.g. lowering a dirstate format) *)
+Definition tree_convert (t new : nat) : option nat :=
+  let t' := tree_steps t new in
+  if (t' =? t) && negb (t =? new) then None else Some t'.
+
+(* ConvertMetaToMeta.convert: (result, raised BadConversionTarget?) -- repository, then branch, then tree:
+   a refusal of a later part leaves the earlier parts converted *)
 Definition meta_to_meta (d : cdir) (f : tfmt) : cdir * bool :=
   let repo' := match c_repo d with
                | Some (r, revs) => if rf_id r =? rf_id (tg_repo f) then Some (r, revs) else Some (tg_repo f, revs)
                | None => None
                end in
-  match c_branch d with
-  | Some (b, p) =>
-      match branch_chain 3 b (tg_branch f) p with
-      | None => (mkCD (c_colo d) repo' (c_branch d) (c_tree d) (c_backup d), true)
-      | Some bp' =>
-          (mkCD (c_colo d) repo' (Some bp')
-                (match c_tree d with Some (t, tp) => Some (tree_steps t (tg_tree f), tp) | None => None end)
-                (c_backup d), false)
+  let br' := match c_branch d with
+             | Some (b, p) => match branch_chain 3 b (tg_branch f) p with
+                              | Some bp' => Some (Some bp')
+                              | None => None
+                              end
+             | None => Some None
+             end in
+  match br' with
+  | None => (mkCD (c_colo d) repo' (c_branch d) (c_tree d) (c_backup d), true)
+  | Some b' =>
+      match c_tree d with
+      | Some (t, tp) =>
+          match tree_convert t (tg_tree f) with
+          | Some t' => (mkCD (c_colo d) repo' b' (Some (t', tp)) (c_backup d), false)
+          | None => (mkCD (c_colo d) repo' b' (c_tree d) (c_backup d), true)
+          end
+      | None => (mkCD (c_colo d) repo' b' None (c_backup d), false)
       end
-  | None =>
-      (mkCD (c_colo d) repo' None
-            (match c_tree d with Some (t, tp) => Some (tree_steps t (tg_tree f), tp) | None => None end)
-            (c_backup d), false)
   end.
 
 Definition meta_to_colo (d : cdir) (f : tfmt) : cdir :=
